@@ -122,6 +122,10 @@ def units(tier):
 
     for kind in ("string", "message", "packed"):
         u.append(("long-payload[%s]" % kind, h_long, {"kind": kind}))
+    from .c09 import h_len_after_edit
+
+    for name in ("packed", "repmsg", "mapmsg"):
+        u.append(("delimited-after-in-place-edit[s2 %s]" % name, h_len_after_edit, {"cat": ["s2", name]}))
     return u
 
 
